@@ -383,11 +383,43 @@ func runC05(c *Ctx) {
 		return
 	}
 	development := g.Chance(4)
+	optIncr, optIncrWidens := false, false
 	opts := []zap.Option{zap.WithPanicHook(c5noopHook{}), zap.WithFatalHook(c5noopHook{})}
 	if development {
 		opts = append(opts, zap.Development())
 	}
+	// logger-level options that wrap the core: zap.Hooks and zap.IncreaseLevel
+	errOut := zsim.NewSimSink(c.R, "errout", 1, 9)
+	opts = append(opts, zap.ErrorOutput(zapcore.Lock(errOut)))
+	if g.Chance(4) {
+		hn := &c5node{id: len(w.nodes), kind: c5Hooks, kids: []*c5node{root}, hookCalls: map[string]int{}}
+		w.nodes = append(w.nodes, hn)
+		w.hooks = append(w.hooks, hn)
+		opts = append(opts, zap.Hooks(func(e zapcore.Entry) error { hn.hookCalls[e.Message]++; return nil }))
+		root = hn
+	}
+	if g.Chance(4) {
+		in := &c5node{id: len(w.nodes), kind: c5Incr, kids: []*c5node{root}, enab: w.drawEnab(g)}
+		widens := false
+		for l := zapcore.DebugLevel; l <= zapcore.FatalLevel; l++ {
+			if !w.nodeEnabled(root, l, w.val) && in.enab.enabled(l, w.val) {
+				widens = true
+			}
+		}
+		opts = append(opts, zap.IncreaseLevel(w.enabler(in.enab)))
+		if !widens {
+			w.nodes = append(w.nodes, in)
+			w.hasIncr = true
+			root = in
+		}
+		optIncrWidens, optIncr = widens, true
+	}
 	lg := zap.New(core, opts...)
+	if optIncr && (len(errOut.Data) > 0) != optIncrWidens {
+		c.Fail("C05: the IncreaseLevel option accepted a widening enabler or rejected a narrowing one", "widening=%v, error output %q; tree %s", optIncrWidens, errOut.Data, w.describe(root))
+		return
+	}
+	core = lg.Core()
 	sug := lg.Sugar()
 	sl := slog.New(zapslog.NewHandler(core))
 	gl := zapgrpc.NewLogger(lg)
